@@ -31,6 +31,7 @@ PROOFS = [
     Proof('lemma/conservation', 'sem.c', 'lemma_conservation', kind='L', min_obligations=2, backend='cadical'),
 ]
 NATIVES = []
+AUX_VIOLATION = True    # no native oracle: a failing loop-rule obligation is reported (no-failing-input-found), see DESIGN §4
 TRUSTED = ['cbmc 6.11.0', 'lowering rules of specs/C02/spec.py']
 NOT_DECIDED = ['no lost wake-up (liveness: a signal arriving between a failed try_subtract and the sleep), beyond "the waiter is queued while holding the lock"',
                'try_resume queue walk (which waiters are woken)', 'safe destruction after wait returns (object lifetime across the context switch)',
